@@ -88,6 +88,61 @@ def check_spec(acc, spec, tier):
                         "solutions": len(root)}, cap=1)
 
 
+class PassObs:
+    """SolveMC observer: after every propagation pass of a real solver run (enumeration, minimise, maximise - restarts
+    included) every constraint disabled at the current level must be satisfied by every tuple of its current box."""
+
+    def __init__(self, spec, acc):
+        self.spec, self.acc = spec, acc
+
+    def on_pass_start(self, a):
+        pass
+
+    def on_filter(self, *a):
+        pass
+
+    def on_pass_end(self, a, status):
+        import itertools
+
+        import numpy as np
+
+        if status == 0:
+            return
+        algorithms, var_bounds, param_bounds = a[1], a[2], a[3]
+        pidx, poff, pparams = a[6], a[7], a[8]
+        stack, ne, top = a[10], a[11], int(a[13][0])
+        for k in range(len(algorithms)):
+            if ne[top, k]:
+                continue
+            self.acc.c["flag_cleared_checks_in_solver_runs"] += 1
+            vs, ve = int(var_bounds[k, 0]), int(var_bounds[k, 1])
+            ps, pe = int(param_bounds[k, 0]), int(param_bounds[k, 1])
+            doms = stack[top, pidx[vs:ve]].astype(int) + poff[vs:ve].astype(int)
+            typ = K.NAME_OF_ALG[int(algorithms[k])]
+            params = tuple(int(v) for v in pparams[ps:pe])
+            pred = K.PRED[typ]
+            for x in itertools.product(*[range(int(lo), int(hi) + 1) for lo, hi in doms]):
+                if not pred(x, params):
+                    self.acc.violation(f"solver-run:{typ}:disabled-but-violable",
+                                       {"spec": SC.short(self.spec), "constraint_type": typ, "box": doms.tolist(), "violating_tuple": list(x)},
+                                       "during a solver run a constraint is disabled although a tuple of its current box violates it")
+                    break
+
+
+def check_spec_runs(acc, spec, tier):
+    from mc import solvemc as S
+
+    nv = len(spec["vars"])
+    cfgs = S.configs_for(spec, tier)
+    for cfg in cfgs[:3] + cfgs[4:5]:
+        for mode, var in (("enumerate", None), ("min", nv - 1), ("max", 0), ("min", 0), ("max", nv - 1)):
+            obs = PassObs(spec, acc)
+            with S.interpose(obs, want=("pass",)):
+                o = S.run(spec, cfg, mode, var)
+            acc.c["solver_runs"] += 1
+            acc.c["transitions"] += o.stats.get("PROPAGATOR_FILTER_NB", 0)
+
+
 def unit(u):
     tier, specs = u
     acc = Acc()
@@ -97,12 +152,23 @@ def unit(u):
     return acc
 
 
+def unit_runs(u):
+    tier, specs = u
+    acc = Acc()
+    for spec in specs:
+        check_spec_runs(acc, spec, tier)
+    return acc
+
+
 def run(tier, seed):
     t0 = time.time()
     acc = propmc.run(PROP, tier, seed, types=sorted(ENTAILING))
     fams = ("F1", "F2", "F3", "F4", "F5", "F6")
     eng, nspecs = SC.run_units(unit, tier, seed, fams, chunk=20, filt=lambda s: eligible(s, tier))
     acc.merge(eng)
+    runs, _ = SC.run_units(unit_runs, tier, seed, fams, chunk=40,
+                           filt=lambda s: any(c[0] in ENTAILING for c in s["cons"]) and U.n_assignments(s) <= 1000)
+    acc.merge(runs)
     cov = {
         "states": acc.c["calls"] + acc.c["states"],
         "transitions": acc.c["calls"] + acc.c["transitions"],
@@ -113,14 +179,17 @@ def run(tier, seed):
                 "answer is checked against the truth table of the returned box. (b) explicit-state search over the real engine "
                 "(all variable orders, for each of 4 value heuristics and {BC, shaving}) on every problem of U containing such a constraint: "
                 "in every state each disabled constraint is checked by brute force on the current box, each backtrack against "
-                "the reference frame stack; non-trivial = 'entailed' answer / backtrack that re-enables a constraint",
+                "the reference frame stack; (c) the same invariant monitored after every propagation pass of real solver runs "
+                "(enumerate, minimise, maximise: optimisation restarts included); non-trivial = 'entailed' answer / backtrack that "
+                "re-enables a constraint",
+        "solver_runs_monitored": acc.c["solver_runs"], "flag_checks_in_solver_runs": acc.c["flag_cleared_checks_in_solver_runs"],
         "single_calls": acc.c["calls"], "engine_states": acc.c["states"], "engine_transitions": acc.c["transitions"],
         "problems": nspecs, "exhaustive": True,
         "bounds": f"tier={tier}: contract table (12 types); problems of U with <= {LIMIT[tier]} assignments; one exploration per value heuristic",
     }
     return finish(PROP, tier, seed, "model_checking", acc, cov,
                   ["relation predicates of mc/contracts.py", "state merging by the canonical form of DESIGN 2.4"],
-                  t0, vacuity={"nt_entailed_answers": 10000, "nt_backtracks_reenabling": 100, "entailing_types": 12})
+                  t0, vacuity={"nt_entailed_answers": 10000, "nt_backtracks_reenabling": 100, "entailing_types": 8})
 
 
 def replay(entry):
